@@ -4,8 +4,10 @@
    py2coq-generated Gen/GenC04Triplet.v, _truncated_interval is Gen/GenC01Trunc.v.
    m1, m2 = first / second moment integrals of the (untruncated) Levy measure: abstract additive interval functions over Q. *)
 From Coq Require Import ZArith QArith List.
-From RV Require Import Base.QB Model.Grid Gen.GenC01Trunc Gen.GenC04Triplet Model.Chain Model.Drift Proofs.C13_Grid Proofs.C01_Chain Proofs.C04_Drift.
+From RV Require Import Base.QB Base.Corr Model.Grid Gen.GenC01Trunc Gen.GenC04Triplet Gen.GenC04SetRep Model.Chain Model.Drift Model.DriftGen
+  Model.CopulaDiffusion Proofs.C13_Grid Proofs.C01_Chain Proofs.C04_Drift Proofs.C04_SetRep Proofs.C04_CopulaDiffusion.
 Import ListNotations.
+From RV Require Gen.GenTieDrift Proofs.Tie_Drift.
 Open Scope Q_scope.
 
 (* the running-boundary loop of compute_mu_h equals sum_k x_k * q_k with q = create_q_vector: ANY axis, ANY origin
@@ -169,6 +171,165 @@ Example C04_nonvacuous :
   /\ Qeq_bool (chain_sig_h2 ps xs (1#2) false (1#2)) ((1#4) + (3#128)) = true.
 Proof. vm_compute. repeat split. Qed.
 
+(* ================= wave 5: the drift DISPATCH, regenerated from the source =================
+   Gen/GenC04SetRep.v: set_representation target rep fv a = (a', rep') is LevyTriplet.set_representation together with the
+   _drift_mapping dict of LevyTriplet.__init__ and the enum values (harness/py2coq_c04.py), a state transformer on
+   (triplet.a, triplet.representation) in the statement order of the source.  Model/DriftGen.v states the chain on it
+   (a_after_init / rep_after_init = the triplet after MarkovChainProcess.__init__ / MarkovChainLevyCopula.__init__). *)
+
+(* what the dispatch does: the triplet ends in the target representation; a target different from the current representation
+   calls exactly the generated conversion registered for it (an unregistered key is the error value: KeyError); the same target
+   again changes nothing *)
+Theorem C04_set_representation_dispatch : forall (m1t : Q -> Q -> Q) pinf err t rep fv a,
+  snd (set_representation m1t pinf err t rep fv a) = t
+  /\ set_representation m1t pinf err t t fv a = (a, t)
+  /\ (let s := set_representation m1t pinf err t rep fv a in set_representation m1t pinf err t (snd s) fv (fst s) = s)
+  /\ (rep <> 1%Z -> fst (set_representation m1t pinf err 1 rep fv a) = zero_drift m1t pinf err rep fv a)
+  /\ (rep <> 2%Z -> fst (set_representation m1t pinf err 2 rep fv a) = center_drift m1t pinf err rep fv a)
+  /\ (rep <> 3%Z -> fst (set_representation m1t pinf err 3 rep fv a) = canonical_drift m1t pinf err rep fv a)
+  /\ (rep <> 4%Z -> fst (set_representation m1t pinf err 4 rep fv a) = tilde_drift m1t pinf err rep fv a)
+  /\ (~ (t = 1 \/ t = 2 \/ t = 3 \/ t = 4)%Z -> t <> rep -> fst (set_representation m1t pinf err t rep fv a) = err).
+Proof.
+  intros. destruct (set_representation_dispatch m1t pinf err rep fv a) as (D1 & D2 & D3 & D4 & D5).
+  repeat split; try assumption.
+  - apply set_representation_lands.
+  - apply set_representation_same.
+  - apply set_representation_idempotent.
+  - intros. apply D5; assumption.
+Qed.
+
+(* route independence: rep -> t1 -> t2 gives the drift of rep -> t2 (in particular rep -> t1 -> rep gives a back), for EVERY
+   function m1t (no additivity: the conversions only ever use int_{-1}^{1} and the two tails as atoms).  Guard: the ZERO
+   representation is neither declared nor targeted when the jumps have infinite variation (those calls raise). *)
+Theorem C04_set_representation_route_independent : forall (m1t : Q -> Q -> Q) pinf err rep t1 t2 fv a,
+  (rep = 1 \/ rep = 2 \/ rep = 3 \/ rep = 4)%Z -> (t1 = 1 \/ t1 = 2 \/ t1 = 3 \/ t1 = 4)%Z -> (t2 = 1 \/ t2 = 2 \/ t2 = 3 \/ t2 = 4)%Z ->
+  (fv = true \/ (rep <> 1 /\ t1 <> 1 /\ t2 <> 1)%Z) ->
+  let s1 := set_representation m1t pinf err t1 rep fv a in
+  fst (set_representation m1t pinf err t2 (snd s1) fv (fst s1)) == fst (set_representation m1t pinf err t2 rep fv a)
+  /\ snd (set_representation m1t pinf err t2 (snd s1) fv (fst s1)) = snd (set_representation m1t pinf err t2 rep fv a).
+Proof. exact set_representation_route_independent. Qed.
+
+(* the hand table of Model/Drift.v is the TILDE instance of the generated dispatch; hence the executable chain models agree *)
+Theorem C04_generated_dispatch_is_a_tilde : forall (m1t : Q -> Q -> Q) pinf err rep fv a,
+  a_after_init m1t pinf err rep fv a = a_tilde m1t pinf err rep fv a /\ rep_after_init m1t pinf err rep fv a = TILDE.
+Proof. exact set_representation_tilde_is_a_tilde. Qed.
+Theorem C04_generated_chain_is_hand_chain : forall ps xs o md rep fv a,
+  chain_process_drift_gen ps xs o md rep fv a = chain_process_drift ps xs o md rep fv a
+  /\ chain_process_drift_gen_opt ps xs o md rep fv a = chain_process_drift_opt ps xs o md rep fv a.
+Proof. exact chain_process_drift_gen_eq. Qed.
+
+Section MeasureGen.
+  Variable m1 : Q -> Q -> Q.
+  Hypothesis m1_add : forall a b c, a <= b -> b <= c -> m1 a c == m1 a b + m1 b c.
+  Hypothesis m1_proper : forall a a' b b', a == a' -> b == b' -> m1 a b == m1 a' b'.
+  Variables l r pinf err : Q.
+  Hypothesis l_le_r : l <= r.
+  Hypothesis pinf_ge_1 : 1 <= pinf.
+  Hypothesis pinf_left : - pinf <= l.
+  Hypothesis pinf_right : r <= pinf.
+
+  (* ANY call set_representation(target) on a triplet in ANY representation keeps the first cumulant of (a, nu|[l,r]) *)
+  Theorem C04_set_representation_preserves_mean : forall target rep fv a,
+    (rep = 1 \/ rep = 2 \/ rep = 3 \/ rep = 4)%Z -> (target = 1 \/ target = 2 \/ target = 3 \/ target = 4)%Z ->
+    (fv = true \/ (rep <> 1 /\ target <> 1)%Z) ->
+    let s := set_representation (tmass m1 l r) pinf err target rep fv a in
+    mean_rate (tmass m1 l r) pinf (snd s) fv (fst s) == mean_rate (tmass m1 l r) pinf rep fv a /\ snd s = target.
+  Proof. intros. apply (set_representation_preserves_mean m1); assumption. Qed.
+
+  (* C04_mean_identity on the generated dispatch: drift (with the triplet as __init__ leaves it) + rate-weighted states == the
+     first cumulant in the DECLARED representation; the triplet is then in TILDE with the same first cumulant *)
+  Theorem C04_mean_identity_generated : forall (mid mass : Q -> Q -> Q) xs o md rep fv a,
+    (o + 1 < length xs)%nat -> (rep = 1 \/ rep = 2 \/ rep = 3 \/ rep = 4)%Z -> (fv = true \/ rep <> 1%Z) ->
+    process_drift_gen (tmass m1 l r) pinf err md rep fv a (compute_mu_h mid mass xs o) + mean_of_rates mid mass xs o
+    == md + mean_rate (tmass m1 l r) pinf rep fv a
+    /\ rep_after_init (tmass m1 l r) pinf err rep fv a = TILDE
+    /\ mean_rate (tmass m1 l r) pinf TILDE fv (a_after_init (tmass m1 l r) pinf err rep fv a) == mean_rate (tmass m1 l r) pinf rep fv a
+    /\ tmass m1 l r (- pinf) pinf == m1 l r.
+  Proof. intros. apply (mean_identity_gen m1); assumption. Qed.
+End MeasureGen.
+
+Theorem C04_mean_identity_generated_infinite_variation : forall (m1t : Q -> Q -> Q) pinf err (mid mass : Q -> Q -> Q) xs o md rep a,
+  (o + 1 < length xs)%nat -> (rep = 2 \/ rep = 3 \/ rep = 4)%Z ->
+  process_drift_gen m1t pinf err md rep false a (compute_mu_h mid mass xs o) + mean_of_rates mid mass xs o
+  == md + mean_rate m1t pinf rep false a.
+Proof. exact mean_identity_gen_iv. Qed.
+
+Theorem C04_copula_margins_generated : forall mid ms, Forall cm_ok ms ->
+  Forall (fun m => cm_drift_gen mid m + mean_of_rates mid (cm_mass m) (cm_xs m) (cm_o m)
+                   == cm_md m + mean_rate (cm_m1t m) (cm_pinf m) (cm_rep m) (cm_fv m) (cm_a m)
+                   /\ rep_after_init (cm_m1t m) (cm_pinf m) (cm_err m) (cm_rep m) (cm_fv m) (cm_a m) = TILDE) ms.
+Proof. exact copula_margins_mean_gen. Qed.
+
+(* non-vacuity of the dispatch theorems: density 3 on [-2,0], 3/2 on [0,3], truncation [-2,3], a = 3/8 declared ONEONE:
+   -> CENTER gives a + tails = 3/8 - 9/2 + 6; ONEONE -> CENTER -> TILDE equals ONEONE -> TILDE; ZERO from infinite variation raises;
+   and the chain of C04_nonvacuous through the generated dispatch *)
+Example C04_dispatch_nonvacuous :
+  let ps := [(-2, 0, 3); (0, 3, 3#2)] in let xs := [-2; -1; -(1#2); 0; 1#2; 2; 3] in
+  option_eqb (fun x y => Qeq_bool (fst x) (fst y) && Z.eqb (snd x) (snd y)) (step_set_representation ps (-2) 3 2 3 true (3#8)) (Some (15#8, 2%Z)) = true
+  /\ option_eqb (fun x y => Qeq_bool (fst x) (fst y) && Z.eqb (snd x) (snd y))
+       (step_set_representation2 ps (-2) 3 2 4 3 true (3#8)) (step_set_representation ps (-2) 3 4 3 true (3#8)) = true
+  /\ step_set_representation ps (-2) 3 1 3 false (3#8) = None
+  /\ Qeq_bool (chain_process_drift_gen ps xs 3 0 3 true (3#8) + chain_mean ps xs 3) ((3#8) - (9#2) + 6) = true.
+Proof. vm_compute. repeat split. Qed.
+
+(* ================= wave 5: the variance matrix of a copula chain (MCLevyCopulaSimulation.__init__) =================
+   Model/CopulaDiffusion.v: the unpacking loop over the pool's outputs, the margin loop, variance_matrix = adj + diag(sigma^2), the
+   joint flag LevyCopulaModel.jump_of_finite_variation = all margins of finite variation (repaired by d166938, finding F-C04-5).
+   vadj i j (i <= j) stands for vol_adjustment_ij(i, j, h, model) (scipy nquad: not modelled, data in the correspondence). *)
+
+(* every entry, for every dimension: the loop invariant of the unpacking + the margin loop.  variance_matrix[r][c] = sigma_r^2 [r = c]
+   + vol_adjustment_ij(min, max) unless one of the two margins has jumps of finite variation (the joint flag drops out: it is true
+   only when every margin's flag is); symmetric.  Second conjunct: the same for an ARBITRARY joint flag (any definition of it) *)
+Theorem C04_copula_variance_matrix_entries : forall d flags sig2 vadj r c, length flags = d -> (r < d)%nat -> (c < d)%nat ->
+  copula_variance_matrix_cur d flags sig2 vadj r c
+  = (if nth r flags false || nth c flags false then 0 else sym_entry vadj r c) + (if Nat.eqb r c then nth r sig2 0 else 0)
+  /\ (forall joint, copula_variance_matrix d joint flags sig2 vadj r c
+      = (if joint || nth r flags false || nth c flags false then 0 else sym_entry vadj r c) + (if Nat.eqb r c then nth r sig2 0 else 0))
+  /\ copula_variance_matrix_cur d flags sig2 vadj r c = copula_variance_matrix_cur d flags sig2 vadj c r.
+Proof.
+  intros. split; [apply copula_variance_matrix_cur_entries; assumption|split].
+  - intros. apply copula_variance_matrix_entries; assumption.
+  - apply copula_variance_matrix_symmetric; assumption.
+Qed.
+
+(* what is added per margin / cross term: the diagonal is the sigma_h^2 of the 1-d chain of EVERY margin (so the copula chain and
+   the 1-d chain of a margin add the same variance), PROVIDED vol_adjustment_ij(k,k) returns margin k's central-cell second moment
+   (hypothesis: the nquad quadrature / Fubini identity is not modelled; compared numerically on step margins -- hence _partial, the
+   repair of F-C04-5 does not remove this hypothesis); a cross term vanishes whenever one of the two margins has jumps of finite variation *)
+Theorem C04_copula_diagonal_is_margin_chain_partial :
+  forall (d : nat) (flags : list bool) (sigmas : list Q) (m2s : nat -> Q -> Q -> Q) (ls rs : nat -> Q) (h : Q) vadj,
+  length flags = d ->
+  (forall k, (k < d)%nat -> nth k flags false = false -> vadj k k == vol_adj2 (tmass (m2s k) (ls k) (rs k)) false h) ->
+  (forall k, (k < d)%nat ->
+     copula_variance_matrix_cur d flags (map (fun s => s * s) sigmas) vadj k k
+     == sig_h2 (tmass (m2s k) (ls k) (rs k)) (nth k sigmas 0) (nth k flags false) h)
+  /\ (forall r c, (r < d)%nat -> (c < d)%nat -> r <> c -> nth r flags false = true \/ nth c flags false = true ->
+        copula_variance_matrix_cur d flags (map (fun s => s * s) sigmas) vadj r c = 0 + 0).
+Proof.
+  intros. split; [apply copula_diagonal_is_margin_chain; assumption|]. intros. apply copula_cross_term_zero; try assumption. tauto.
+Qed.
+
+(* non-vacuity: d = 3, margins (iv, fv, iv), outputs 11 12 13 / 22 23 / 33 in the pool's order: the matrix keeps 11, 13, 33 only *)
+Example C04_copula_matrix_nonvacuous :
+  copula_chain_variance_matrix [(1#2, false); (1, true); (0, false)] [11; 12; 13; 22; 23; 33]
+  = [[11 + (1#2) * (1#2); 0 + 0; 13 + 0]; [0 + 0; 0 + 1 * 1; 0 + 0]; [13 + 0; 0 + 0; 33 + 0 * 0]]
+  /\ copula_joint_fv_all [false; true; false] = false /\ copula_joint_fv_all [true; true] = true.
+Proof. vm_compute. repeat split. Qed.
+
+(* the code BEFORE d166938 (finding F-C04-5, fixed): joint flag = max_k BG-index_k <= 1.  Two margins with index exactly 1 that report
+   jumps of infinite variation (CGMY y = 1), pool outputs 5 / 1 / 7: the old code added nothing, the repaired code adds 5 and 7 *)
+Example C04_copula_joint_flag_before_repair :
+  copula_joint_fv_orig [1; 1] = true /\ copula_joint_fv_all [false; false] = false
+  /\ copula_chain_variance_matrix_orig [1; 1] [(0, false); (0, false)] [] = [[0 + 0 * 0; 0 + 0]; [0 + 0; 0 + 0 * 0]]
+  /\ copula_chain_variance_matrix [(0, false); (0, false)] [5; 1; 7] = [[5 + 0 * 0; 1 + 0]; [1 + 0; 7 + 0 * 0]].
+Proof. vm_compute. repeat split. Qed.
+
+(* ================= TIE: compute_mu_h regenerated from markovchain.py (Gen/GenTieDrift.v) is the hand model =================
+   every C04 theorem about Drift.compute_mu_h is a theorem about the generated loop (enumerate with two accumulators) *)
+Theorem C04_gen_compute_mu_h_is_model : forall (mass mid : Q -> Q -> Q) xs (o : nat),
+  GenTieDrift.compute_mu_h mass mid xs (Z.of_nat o) = Drift.compute_mu_h mid mass xs o.
+Proof. exact Tie_Drift.gen_compute_mu_h_eq_model. Qed.
+
 Print Assumptions C04_mu_h_is_sum.
 Print Assumptions C04_mean_identity.
 Print Assumptions C04_tilde_conversion.
@@ -183,3 +344,17 @@ Print Assumptions C04_copula_variance_added.
 Print Assumptions C04_variance_gap.
 Print Assumptions C04_step_m1_additive.
 Print Assumptions C04_nonvacuous.
+Print Assumptions C04_set_representation_dispatch.
+Print Assumptions C04_set_representation_route_independent.
+Print Assumptions C04_generated_dispatch_is_a_tilde.
+Print Assumptions C04_generated_chain_is_hand_chain.
+Print Assumptions C04_set_representation_preserves_mean.
+Print Assumptions C04_mean_identity_generated.
+Print Assumptions C04_mean_identity_generated_infinite_variation.
+Print Assumptions C04_copula_margins_generated.
+Print Assumptions C04_dispatch_nonvacuous.
+Print Assumptions C04_copula_variance_matrix_entries.
+Print Assumptions C04_copula_diagonal_is_margin_chain_partial.
+Print Assumptions C04_copula_matrix_nonvacuous.
+Print Assumptions C04_copula_joint_flag_before_repair.
+Print Assumptions C04_gen_compute_mu_h_is_model.
